@@ -1,11 +1,14 @@
 //! Configuration catalogue: which drivers run for which property, with which bounds.
 use crate::drivers::c01::{self, Mode};
 use crate::drivers::c02::{self, Kind};
+use crate::drivers::c05::{self, ListMut};
+use crate::drivers::c06::{self, LcShape, Pert, T};
 use crate::drivers::c07;
 use crate::drivers::c08;
 use crate::drivers::c09::{self, TrimReq};
 use crate::drivers::c14;
 use crate::drivers::c16;
+use crate::drivers::inherent::{self, Pert as IPert};
 use crate::drivers::common::{Cfg, PolySpec};
 use crate::engine::explore::{Limits, Verdict};
 use crate::schemes::*;
@@ -176,6 +179,98 @@ fn c02_family<S: Sch>(t: Tier, seed: u64, out: &mut Vec<Entry>) {
     }
 }
 
+fn c05_family<S: Sch>(t: Tier, seed: u64, out: &mut Vec<Entry>) {
+    let name = S::NAME;
+    let quick = t == Tier::Quick;
+    let f = vec!["PolynomialCommitment::{batch_open,batch_check,check}", "kzg10::KZG10::batch_check", "Marlin::combine_and_normalize", "SonicKZG10::batch_check", "InnerProductArgPC::batch_check", "MarlinPST13::batch_check"];
+    let sym = "one free error term per claimed evaluation (zero included), points, sponge challenges; verifier randomness: N concrete tapes";
+    let mk = |npolys: usize, npoints: usize, queries: Vec<(usize, usize)>| -> Cfg {
+        let mut c = Cfg::new(std_size::<S>(t, 0), (0..npolys).map(|_| PolySpec::new(2).conc()).collect());
+        c.seed = seed;
+        c.npoints = npoints;
+        c.queries = queries;
+        c.sym_rng = name == "hyrax";
+        c.rng_nonzero = true;
+        c
+    };
+    let mut add = |id: &str, cfg: Cfg, run: Box<dyn Fn(&Cfg) -> Verdict>| {
+        let b = format!("{:?}; polys {}; points {}; queries {:?}", cfg.sz, cfg.polys.len(), cfg.npoints, cfg.queries);
+        let c2 = cfg.clone();
+        let mut en = e(format!("{}/{}", name, id), t, sym, b, move || run(&c2));
+        en.funcs = f.clone();
+        if quick { en.lim.wall_s = 45.0; }
+        out.push(en);
+    };
+    add("equiv-2p2z-cross", mk(2, 2, vec![(0, 0), (1, 0), (0, 1), (1, 1)]), Box::new(|c| c05::equiv::<S>(c, 3, false)));
+    add("equiv-1p2z", mk(1, 2, vec![(0, 0), (0, 1)]), Box::new(|c| c05::equiv::<S>(c, 3, false)));
+    add("equiv-honest-3p3z", mk(3, 3, vec![(0, 0), (1, 0), (1, 1), (2, 1), (2, 2), (0, 2)]), Box::new(|c| c05::equiv::<S>(c, 2, true)));
+    if !quick {
+        add("equiv-3p3z", mk(3, 3, vec![(0, 0), (1, 0), (1, 1), (2, 1), (2, 2), (0, 2)]), Box::new(|c| c05::equiv::<S>(c, 4, false)));
+    }
+    for (id, m) in [("plist-truncate", ListMut::Truncate), ("plist-empty", ListMut::Empty), ("plist-swap", ListMut::Swap), ("plist-dup", ListMut::Dup), ("plist-surplus", ListMut::Surplus)] {
+        let mut c = mk(2, 2, vec![(0, 0), (1, 1)]);
+        // proofs moved between positions: acceptance for trapdoor-dependent special points is not an
+        // attack; the points are concrete-random (distinct) there and only the challenges are symbolic
+        c.sym_points = !matches!(m, ListMut::Swap | ListMut::Dup);
+        add(id, c, Box::new(move |c| c05::proof_list::<S>(c, m)));
+    }
+}
+
+fn c06_family<S: Sch>(t: Tier, seed: u64, out: &mut Vec<Entry>) {
+    let name = S::NAME;
+    let quick = t == Tier::Quick;
+    let f = vec!["PolynomialCommitment::{open_combinations,check_combinations}", "lc_query_set_to_poly_query_set", "evaluate_query_set", "Marlin::{open_combinations,check_combinations,combine_commitments}", "batch_open", "batch_check"];
+    let sym = "LC coefficients and constants, points (aliasing solver-generated), challenges, delta; polynomial coefficients in 1-polynomial shapes";
+    let mk = |polys: Vec<PolySpec>, npoints: usize| -> Cfg {
+        let mut c = Cfg::new(std_size::<S>(t, 0), polys);
+        c.seed = seed;
+        c.npoints = npoints;
+        c.queries = vec![];
+        c
+    };
+    let conc = |n: usize| -> Vec<PolySpec> { (0..n).map(|_| PolySpec::new(2).conc()).collect() };
+    let mut add = |id: &str, cfg: Cfg, shape: LcShape, pert: Pert, twin: bool| {
+        let b = format!("{:?}; polys {:?}; points {}; {:?}; perturbation {:?}", cfg.sz, cfg.polys, cfg.npoints, shape, pert);
+        let (c2, s2) = (cfg.clone(), shape.clone());
+        let mut en = e(format!("{}/{}", name, id), t, sym, b, move || c06::run::<S>(&c2, &s2, pert, twin));
+        en.funcs = f.clone();
+        en.twin = twin;
+        if quick { en.lim.wall_s = 45.0; }
+        out.push(en);
+    };
+    let s_abk = LcShape { lcs: vec![vec![T::P(0), T::P(1), T::One]], queries: vec![(0, 0)] };
+    let s_rep = LcShape { lcs: vec![vec![T::P(0), T::P(0)]], queries: vec![(0, 0)] };
+    let s_two = LcShape { lcs: vec![vec![T::P(0), T::P(1)], vec![T::P1(1), T::One]], queries: vec![(0, 0), (1, 0)] };
+    let s_alias = LcShape { lcs: vec![vec![T::P(0), T::P(1), T::One]], queries: vec![(0, 0), (0, 1)] };
+    let s_one = LcShape { lcs: vec![vec![T::P(0), T::One]], queries: vec![(0, 0)] };
+    // honest
+    add("honest-a.p0+b.p1+k", mk(conc(2), 1), s_abk.clone(), Pert::None, false);
+    add("honest-repeated-label", mk(conc(1), 1), s_rep.clone(), Pert::None, false);
+    add("honest-2lcs-1point", mk(conc(2), 1), s_two.clone(), Pert::None, false);
+    add("honest-2z-alias", mk(conc(2), 2), s_alias.clone(), Pert::None, false);
+    add("honest-1p-sympoly", mk(vec![PolySpec::new(2)], 1), s_one.clone(), Pert::None, false);
+    if name != "ipa" {
+        // perturbations (IPA's challenges are hashes of the perturbed data: decided through C10 instead)
+        add("val+d", mk(conc(2), 1), s_abk.clone(), Pert::Value(0), false);
+        add("val+d-2z@1", mk(conc(2), 2), s_alias.clone(), Pert::Value(1), false);
+        add("val+d-2z@0", mk(conc(2), 2), s_alias.clone(), Pert::Value(0), false);
+        add("coeff+d", mk(conc(2), 1), s_abk.clone(), Pert::Coeff, false);
+        add("const+d", mk(conc(2), 1), s_abk.clone(), Pert::Const, false);
+        add("const+d-2z", mk(conc(2), 2), s_alias.clone(), Pert::Const, false);
+        if matches!(name, "hyrax" | "ligero-uni" | "ligero-ml" | "brakedown") {
+            add("eval-shift", mk(conc(2), 1), LcShape { lcs: vec![vec![T::P(0), T::P(1)]], queries: vec![(0, 0)] }, Pert::EvalShift, false);
+        }
+        add("twin-val+d", mk(conc(2), 1), s_abk.clone(), Pert::Value(0), true);
+    }
+    if S::BOUNDS {
+        let sup = std_size::<S>(t, 0).supported;
+        let mixed = vec![PolySpec::new(2).conc().bound(sup - 1), PolySpec::new(2).conc()];
+        add("degbound-mix-refused", mk(mixed.clone(), 1), LcShape { lcs: vec![vec![T::P(1), T::P(0)]], queries: vec![(0, 0)] }, Pert::ExpectDegBoundErr, false);
+        add("degbound-mix-refused-with-const", mk(mixed.clone(), 1), LcShape { lcs: vec![vec![T::P1(0), T::One, T::P(1)]], queries: vec![(0, 0)] }, Pert::ExpectDegBoundErr, false);
+        add("honest-single-bounded-term", mk(mixed.clone(), 1), LcShape { lcs: vec![vec![T::P1(0)]], queries: vec![(0, 0)] }, Pert::None, false);
+    }
+}
+
 pub fn catalogue(prop: &str, t: Tier, seed: u64) -> Vec<Entry> {
     let mut out = vec![];
     match prop {
@@ -188,6 +283,13 @@ pub fn catalogue(prop: &str, t: Tier, seed: u64) -> Vec<Entry> {
             c01_family::<LigeroUni>(t, seed, &mut out);
             c01_family::<LigeroMl>(t, seed, &mut out);
             c01_family::<Brakedown>(t, seed, &mut out);
+            let fi = vec!["kzg10::KZG10::{setup,commit,open,check,batch_check}", "MultilinearPC::{setup,trim,commit,open,check}"];
+            for (id, len, hid, batch) in [("kzg10/1p", 3usize, None, false), ("kzg10/1p-hide1", 2, Some(1usize), false), ("kzg10/2p-batch", 2, None, true)] {
+                let mut en = e(id.to_string(), t, "coefficients, points, blinding", format!("max_degree 3, {} coefficients, hiding {:?}", len, hid), move || inherent::kzg10(3, len, hid, IPert::None, batch, seed)); en.funcs = fi.clone(); if t == Tier::Quick { en.lim.wall_s = 45.0; } out.push(en);
+            }
+            for nv in if t == Tier::Quick { vec![1usize, 2] } else { vec![1usize, 2, 3] } {
+                let mut en = e(format!("mlpst/nv{}", nv), t, "evaluations, point", format!("{} variables", nv), move || inherent::mlpst(nv, IPert::None, seed)); en.funcs = fi.clone(); out.push(en);
+            }
         }
         "C02" => {
             c02_family::<Marlin>(t, seed, &mut out);
@@ -197,6 +299,13 @@ pub fn catalogue(prop: &str, t: Tier, seed: u64) -> Vec<Entry> {
             c02_family::<LigeroUni>(t, seed, &mut out);
             c02_family::<LigeroMl>(t, seed, &mut out);
             c02_family::<Brakedown>(t, seed, &mut out);
+            let fi = vec!["kzg10::KZG10::{setup,commit,open,check,batch_check}", "MultilinearPC::{setup,trim,commit,open,check}"];
+            for (id, len, hid, batch, pert) in [("kzg10/1p-val", 3usize, None, false, IPert::Value), ("kzg10/1p-point", 3, None, false, IPert::Point), ("kzg10/1p-hide1-val", 2, Some(1usize), false, IPert::Value), ("kzg10/2p-batch-val", 2, None, true, IPert::Value), ("kzg10/twin", 2, None, false, IPert::Twin)] {
+                let mut en = e(id.to_string(), t, "coefficients, points, blinding, delta", format!("max_degree 3, {} coefficients, hiding {:?}", len, hid), move || inherent::kzg10(3, len, hid, pert, batch, seed)); en.funcs = fi.clone(); en.twin = pert == IPert::Twin; if t == Tier::Quick { en.lim.wall_s = 45.0; } out.push(en);
+            }
+            for (id, nv, pert) in [("mlpst/nv2-val", 2usize, IPert::Value), ("mlpst/nv2-point", 2, IPert::Point), ("mlpst/nv1-val", 1, IPert::Value), ("mlpst/twin", 2, IPert::Twin)] {
+                let mut en = e(id.to_string(), t, "evaluations, point, delta", format!("{} variables", nv), move || inherent::mlpst(nv, pert, seed)); en.funcs = fi.clone(); en.twin = pert == IPert::Twin; out.push(en);
+            }
         }
         "C16" => {
             let f = vec!["LinearCombination::{add_assign,sub_assign,mul_assign}", "evaluate_query_set", "SuccinctCheckPolynomial::{evaluate,compute_coeffs}"];
@@ -219,6 +328,26 @@ pub fn catalogue(prop: &str, t: Tier, seed: u64) -> Vec<Entry> {
                 en.funcs = f.clone();
                 out.push(en);
             }
+        }
+        "C05" => {
+            c05_family::<Marlin>(t, seed, &mut out);
+            c05_family::<Sonic>(t, seed, &mut out);
+            c05_family::<Ipa>(t, seed, &mut out);
+            c05_family::<Pst13>(t, seed, &mut out);
+            c05_family::<LigeroUni>(t, seed, &mut out);
+            c05_family::<LigeroMl>(t, seed, &mut out);
+            c05_family::<Brakedown>(t, seed, &mut out);
+            c05_family::<Hyrax>(t, seed, &mut out);
+        }
+        "C06" => {
+            c06_family::<Marlin>(t, seed, &mut out);
+            c06_family::<Sonic>(t, seed, &mut out);
+            c06_family::<Ipa>(t, seed, &mut out);
+            c06_family::<Pst13>(t, seed, &mut out);
+            c06_family::<Hyrax>(t, seed, &mut out);
+            c06_family::<LigeroUni>(t, seed, &mut out);
+            c06_family::<LigeroMl>(t, seed, &mut out);
+            c06_family::<Brakedown>(t, seed, &mut out);
         }
         "C07" => {
             let f = vec!["kzg10::KZG10::{commit,open_with_witness_polynomial}", "kzg10::Randomness::rand", "MarlinKZG10/SonicKZG10/InnerProductArgPC/MarlinPST13/HyraxPC::{commit,open}", "OptionalRng"];
